@@ -446,7 +446,7 @@ def c12_check(sc, rng):
         pre.append(op)
     dts = F(dt[1])
     n = round(F(T[1]) / dts)
-    if n < 4:
+    if n < 5:
         return out
     # (ii) reset / rerun
     for newsolver in (False, True):
@@ -466,7 +466,7 @@ def c12_check(sc, rng):
             if cls != 'D4':
                 return out
     # (i) continuation
-    k1 = rng.randint(1, n - 2)
+    k1 = rng.randint(2, n - 2)
     u2 = rng.choice(S.units('Time'))
     f1, f2 = S.ffactor('Time', dt[2]), S.ffactor('Time', u2)
     T1 = ['TimeInterval', dt[1] * k1, dt[2]]
